@@ -1220,6 +1220,7 @@ func (fr *Frame) execInstr(ins ssa.Instruction) {
 		x := fr.term(t.X)
 		fr.checkNonNil(t.X, x, t.Pos())
 		fr.vals[t] = Val{T: fieldPtr(x, t.Field)}
+		fr.markNonNil(fr.vals[t].T)
 	case *ssa.Field:
 		si := vc.structInfo(t.X.Type())
 		fr.set(t, si.get(fr.term(t.X), t.Field))
@@ -1296,6 +1297,13 @@ func (fr *Frame) execInstr(ins ssa.Instruction) {
 	}
 }
 
+func (fr *Frame) markNonNil(t Term) {
+	if fr.vc.nonNil == nil {
+		fr.vc.nonNil = map[string]bool{}
+	}
+	fr.vc.nonNil[t.S] = true
+}
+
 func (fr *Frame) checkNonNil(v ssa.Value, x Term, pos token.Pos) {
 	switch v.(type) {
 	case *ssa.Alloc, *ssa.FieldAddr, *ssa.IndexAddr, *ssa.Global:
@@ -1307,6 +1315,11 @@ func (fr *Frame) checkNonNil(v ssa.Value, x Term, pos token.Pos) {
 	// (the receiver of an inlined method is whatever the caller passed: a nil receiver faults at
 	// its first dereference, here)
 	if fr.vc.spec > 0 {
+		return
+	}
+	// the result of an address computation that was itself checked (&s[i], &p.f) is not nil: no
+	// second check when it is passed on as the receiver of an inlined method
+	if fr.vc.nonNil[x.S] {
 		return
 	}
 	fr.check("nil", v.Name(), not(isNil(x)), pos)
@@ -1690,6 +1703,7 @@ func (fr *Frame) indexAddr(t *ssa.IndexAddr) {
 		s := fr.term(t.X)
 		fr.check("bounds", indexDesc(t.X, t.Index), app(SBool, "bvult", i, slen(s)), t.Pos())
 		fr.vals[t] = Val{T: vc.name(t.Name(), elemPtr(sptr(s), i))}
+		fr.markNonNil(fr.vals[t].T)
 	case *types.Pointer:
 		arr := u.Elem().Underlying().(*types.Array)
 		fr.check("bounds", indexDesc(t.X, t.Index), app(SBool, "bvult", i, bvLit(uint64(arr.Len()), 64)), t.Pos())
